@@ -17,12 +17,12 @@ PROBES = [('root-header-attributes', 'a successful set_attribute on a header att
           ('mixed-set-character-data', 'set_character_data on an identifiable element with Mixed content (ECUC-QUERY-EXPRESSION in AUTOSAR_4-0-1) drops its SHORT-NAME')]
 
 
-def _editconform(ctx, b, budget, seed, name):
-    rc, out, err, secs = run([b, 'api', 'editconform', str(budget), str(seed), 'survey'], timeout=3000)
+def _editconform(ctx, res, budget, seed, name):
+    rc, out, err, secs = res
     ctx.t('native-enum', secs)
     lines = out.strip().splitlines()
     last = lines[-1] if lines else ''
-    bound = ('pseudo-random editing scripts (4-13 insertions at range ends / inside / one outside, wrong-kind calls, values and attributes from inside and outside the value space) on a fresh element of '
+    bound = ('pseudo-random editing scripts (4-13 insertions at range ends / inside / one outside, wrong-kind calls, values and attributes from inside and outside the value space, a copy of a child at a position around its range, every third script a copy of the whole element into a file of another version followed by creations in the copy) on a fresh element of '
              'every element type reached breadth-first from ElementType::ROOT, in up to 21 versions per type (budget %s scripts, seed %s)' % (budget, seed))
     fails = [l for l in lines if l.startswith('FAIL')]
     if not (last.startswith('OK') or last.startswith('SURVEY')):
@@ -35,9 +35,9 @@ def _editconform(ctx, b, budget, seed, name):
         ob.witness = dict(history=msg[:1500], observed=msg.split(' [')[0][:600], via='public API: Element::{calc_element_insert_range, list_valid_sub_elements, create_*_sub_element_at, set_character_data, set_attribute}, ArxmlFile::serialize, AutosarModel::load_buffer(lenient); oracle: pairwise conformance from the specification lookups',
                           replay=['api', 'editconform1', m.group(1), m.group(2), m.group(3)] if m else None)
         ctx._record_violation(ob)
-    if not fails:
+    if not fails or all(o.detail.startswith('KNOWN FINDING') for o in ctx.obligations if o.name.startswith(name + '#')):
         ctx.add(Obligation(ctx.prop, name, 'native-eval', 'bounded', 'discharged', seconds=secs, bound=bound,
-                           detail='reported insertion range == positions that keep the pairwise specification order; list_valid_sub_elements agrees; creation succeeds exactly inside the range and inserts exactly there; refused calls change nothing; values/attributes outside the tables are refused; the serialized file loads leniently with no complaint other than a missing required attribute and serializes to the same text [%s]' % last))
+                           detail=('' if not fails else '(except the histories attributed to recorded findings) ') + 'reported insertion range == positions that keep the pairwise specification order; list_valid_sub_elements agrees; creation succeeds exactly inside the range and inserts exactly there; refused calls change nothing; values/attributes outside the tables are refused; the serialized file loads leniently with no complaint other than a missing required attribute and serializes to the same text [%s]' % last))
     return last
 
 
@@ -60,8 +60,11 @@ def check(ctx):
                       'wf_modes() of unit insertrange evaluated on the real statics: a character-only type lists no sub-elements and no group has content mode Characters (makes the unreachable!() in calc_element_insert_range unreachable)')
     b = ctx.native()
     seeds = (1, 2, 3, 4, 5, 6, 7, 8) if thorough else (1,)
-    for s in seeds:
-        _editconform(ctx, b, 200000, s + 1000 * ctx.seed, 'native/api-edit-conformance/seed%d' % s)
+    from concurrent.futures import ThreadPoolExecutor
+    with ThreadPoolExecutor(max_workers=8) as ex:
+        outs = list(ex.map(lambda s: run([b, 'api', 'editconform', '200000', str(s + 1000 * ctx.seed), 'survey'], timeout=3000), seeds))
+    for s, res in zip(seeds, outs):
+        _editconform(ctx, res, 200000, s + 1000 * ctx.seed, 'native/api-edit-conformance/seed%d' % s)
     # one fixed history per recorded finding: reported as KNOWN-FINDING while it is listed, as a violation otherwise
     for which, what in PROBES:
         rc, out, err, secs = run([b, 'api', 'editprobe', which], timeout=300)
